@@ -28,7 +28,7 @@ type FA struct {
 	invKeys      map[*ssa.BasicBlock]map[string]bool
 	invDone      bool
 	phiAtoms     map[*ssa.BasicBlock][]*Atom
-	phiAtomsN    int
+	atomStart    int
 	generalized  int
 	noGeneralize bool
 	// span parameters of raw-pointer functions
@@ -42,7 +42,9 @@ func (A *Analysis) fa(fn *ssa.Function) *FA {
 	if f, ok := A.fas[fn]; ok {
 		return f
 	}
-	f := &FA{A: A, fn: fn, id: fmt.Sprintf("f%d", len(A.fas)), exp: map[ssa.Value]*Lin{}, sd: map[ssa.Value]*SliceDesc{},
+	A.faSeq++
+	A.curFA = nil
+	f := &FA{A: A, fn: fn, atomStart: len(A.atoms), id: fmt.Sprintf("f%d", A.faSeq), exp: map[ssa.Value]*Lin{}, sd: map[ssa.Value]*SliceDesc{},
 		edge: map[*ssa.BasicBlock]*edgeFacts{}, gam: map[*ssa.BasicBlock]*edgeFacts{}, inv: map[*ssa.BasicBlock][]*Inv{}, invKeys: map[*ssa.BasicBlock]map[string]bool{},
 		inExpand: map[ssa.Value]bool{}, usedOps: map[*ssa.BinOp]bool{}}
 	A.fas[fn] = f
@@ -58,7 +60,15 @@ func (A *Analysis) fa(fn *ssa.Function) *FA {
 	if f.spanP == nil || f.spanE == nil {
 		f.spanP, f.spanE = nil, nil
 	}
+	f.installPres()
 	return f
+}
+
+// dropFA forgets the analysis state of fn (its atoms stay allocated but are
+// never referenced again: a rebuilt FA gets a new id).
+func (A *Analysis) dropFA(fn *ssa.Function) {
+	delete(A.fas, fn)
+	A.faSeq++
 }
 
 func (fa *FA) vkey(v ssa.Value) string { return fa.id + ":" + v.Name() }
@@ -90,6 +100,7 @@ func (fa *FA) valAtom(v ssa.Value) AtomID {
 	return fa.A.atom("v:"+fa.vkey(v), func(a *Atom) {
 		a.Kind = aVal
 		a.Fn = fa.fn
+		a.owner = fa
 		a.Block = defBlock(v)
 		a.Name = fa.fn.Name() + "." + v.Name()
 		if lo, hi, ok := intRange(v.Type()); ok {
@@ -262,6 +273,7 @@ func (fa *FA) mulAtom(a, b AtomID) AtomID {
 	return A.atom(fmt.Sprintf("mul:%d:%d", a, b), func(m *Atom) {
 		m.Kind = aMul
 		m.Fn = fa.fn
+		m.owner = fa
 		m.MulA, m.MulB = a, b
 		m.Name = "(" + A.at(a).Name + "*" + A.at(b).Name + ")"
 		ba, bb := A.at(a).Block, A.at(b).Block
@@ -441,6 +453,7 @@ func (fa *FA) cellValue(ver *MemVer, t types.Type) *Lin {
 	id := A.atom(key, func(a *Atom) {
 		a.Kind = aCell
 		a.Fn = fa.fn
+		a.owner = fa
 		a.Name = fa.fn.Name() + "." + ver.String()
 		if lo, hi, ok := intRange(t); ok {
 			a.Lo, a.Hi = lo, hi
@@ -492,6 +505,7 @@ func (fa *FA) lenAtom(v ssa.Value, kind atomKind) AtomID {
 	return A.atom(pre+fa.vkey(v), func(a *Atom) {
 		a.Kind = kind
 		a.Fn = fa.fn
+		a.owner = fa
 		a.Block = defBlock(v)
 		a.Name = pre[:3] + "(" + fa.fn.Name() + "." + v.Name() + ")"
 		a.Lo, a.Hi = bi(0), maxLen
@@ -685,6 +699,7 @@ func (fa *FA) cellSlice(ver *MemVer, at ssa.Value) *SliceDesc {
 		return A.atom(pre+vk, func(a *Atom) {
 			a.Kind = kind
 			a.Fn = fa.fn
+			a.owner = fa
 			a.Block = blk
 			a.Name = pre[:3] + "(" + fa.fn.Name() + "." + ver.String() + ")"
 			a.Lo, a.Hi = bi(0), maxLen
@@ -739,6 +754,7 @@ func (fa *FA) ptrAtom(v ssa.Value) AtomID {
 	return fa.A.atom("ptr:"+fa.vkey(v), func(a *Atom) {
 		a.Kind = aPtr
 		a.Fn = fa.fn
+		a.owner = fa
 		a.Block = defBlock(v)
 		a.Name = "addr(" + fa.fn.Name() + "." + v.Name() + ")"
 		a.Lo, a.Hi = bi(0), maxAddr
@@ -749,6 +765,7 @@ func (fa *FA) dataAtom(root ssa.Value) AtomID {
 	return fa.A.atom("data:"+fa.vkey(root), func(a *Atom) {
 		a.Kind = aData
 		a.Fn = fa.fn
+		a.owner = fa
 		a.Block = defBlock(root)
 		a.Name = "data(" + fa.fn.Name() + "." + root.Name() + ")"
 		a.Lo, a.Hi = bi(0), maxAddr
@@ -832,6 +849,7 @@ func (fa *FA) nilExpand(v ssa.Value) *Lin {
 	id := A.atom("nil:"+fa.vkey(v), func(a *Atom) {
 		a.Kind = aNil
 		a.Fn = fa.fn
+		a.owner = fa
 		a.Block = defBlock(v)
 		a.Name = "nonnil(" + fa.fn.Name() + "." + v.Name() + ")"
 		a.Lo, a.Hi = bi(0), bi(1)
@@ -855,6 +873,7 @@ func (fa *FA) cellNil(ver *MemVer) *Lin {
 	id := A.atom("nilcell:"+fa.id+":"+ver.String(), func(a *Atom) {
 		a.Kind = aNil
 		a.Fn = fa.fn
+		a.owner = fa
 		a.Name = "nonnil(" + fa.fn.Name() + "." + ver.String() + ")"
 		a.Lo, a.Hi = bi(0), bi(1)
 		switch ver.Kind {
